@@ -2,6 +2,8 @@
 
 __all__ = ['Property']
 
+import xml.dom
+
 import cssutils
 from cssutils.helper import Deprecated
 
@@ -150,10 +152,33 @@ class Property(cssutils.util.Base):
                 )
 
             if wellformed:
-                self.wellformed = True
-                self.name = nametokens
-                self.propertyValue = valuetokens
-                self.priority = prioritytokens
+                # kept to restore self if name, value or priority is rejected
+                old = (
+                    self.wellformed,
+                    self.__nametoken,
+                    self._name,
+                    self._literalname,
+                    self.seqs[0],
+                    self.seqs[1].seq,
+                    self.seqs[1].wellformed,
+                )
+                try:
+                    self.wellformed = True
+                    self.name = nametokens
+                    self.propertyValue = valuetokens
+                    self.priority = prioritytokens
+                except xml.dom.DOMException:
+                    (
+                        self.wellformed,
+                        self.__nametoken,
+                        self._name,
+                        self._literalname,
+                        self.seqs[0],
+                        oldvalueseq,
+                        self.seqs[1].wellformed,
+                    ) = old
+                    self.seqs[1]._setSeq(oldvalueseq)
+                    raise
 
                 # also invalid values are set!
 
@@ -361,13 +386,14 @@ class Property(cssutils.util.Base):
             self._log.info('Property: Invalid priority: %s' % self._valuestr(priority))
 
         if wellformed:
+            normalpriority = self._normalize(new['literalpriority'])
+            # validate priority, must be done before anything is set
+            if normalpriority not in ('', 'important'):
+                self._log.error('Property: No CSS priority value: %s' % normalpriority)
             self.wellformed = self.wellformed and wellformed
             self._literalpriority = new['literalpriority']
-            self._priority = self._normalize(self.literalpriority)
+            self._priority = normalpriority
             self.seqs[2] = newseq
-            # validate priority
-            if self._priority not in ('', 'important'):
-                self._log.error('Property: No CSS priority value: %s' % self._priority)
 
     literalpriority = property(
         lambda self: self._literalpriority,
